@@ -607,4 +607,73 @@ Section Generic.
     split; [assumption|]. split; [assumption|]. split; [rewrite H3; reflexivity|].
     destruct H4. split; reflexivity.
   Qed.
+
+  (* ---------- job API: IMB_SGL_INIT carries the first segment ---------- *)
+  Ltac psimpl := cbn [c_hash c_aad_len c_hash_len c_last_ks c_poly_key c_scratch c_lbc c_rks c_rct c_iv
+                      set_hash set_aad_len set_hash_len set_last_ks set_poly_key set_scratch set_lbc
+                      set_rks set_rct set_iv fst snd].
+  Ltac psimpl_in H := cbn [c_hash c_aad_len c_hash_len c_last_ks c_poly_key c_scratch c_lbc c_rks c_rct c_iv
+                      set_hash set_aad_len set_hash_len set_last_ks set_poly_key set_scratch set_lbc
+                      set_rks set_rct set_iv fst snd] in H.
+
+  Lemma job_init_inv : forall dir ctx0 s,
+    length (c_scratch ctx0) = 16%nat -> N.of_nat (length s) < 2 ^ 64 ->
+    inv dir (fst (job_init key ctx0 iv aad s dir)) s /\
+    snd (job_init key ctx0 iv aad s dir) = out_of [] s.
+  Proof.
+    intros dir ctx0 s Hs Hlen. unfold ChachaStream.job_init.
+    set (rem := N.land (len64 s) HASH_REMAIN_CLAMP).
+    set (l16 := N.land (len64 s) HASH_LEN_CLAMP).
+    set (ctxA := ChachaStream.paead_update_ctx pblock _ aad).
+    assert (HksA : ks_rel ctxA (st_after [])).
+    { rewrite st_after_nil. unfold ctxA, ks_rel, ChachaStream.paead_update_ctx. psimpl.
+      cbn [length]. repeat split; try lia. congruence. }
+    assert (HA : c_poly_key ctxA = pk /\ length (c_scratch ctxA) = 16%nat /\ c_hash ctxA = h0 /\
+                 c_hash_len ctxA = len64 s /\ c_aad_len ctxA = len64 aad /\ c_rct ctxA = rem).
+    { unfold ctxA, ChachaStream.paead_update_ctx. psimpl. repeat split; auto. }
+    clearbody ctxA.
+    destruct HA as (A1 & A2 & A3 & A4 & A5 & A6).
+    destruct dir.
+    - pose proof (enc_dec_ks_sim ctxA (st_after []) s HksA) as [Ho Hks2].
+      pose proof (enc_dec_ks_frame ctxA s) as Hfr.
+      destruct (enc_dec_ks key ctxA s) as [ctxB dst]. cbn [fst snd] in *.
+      fold (out_of [] s) in Ho. subst dst.
+      destruct Hfr as (F1 & F2 & F3 & F4 & F5 & F6).
+      assert (Hl : len64 (out_of [] s) = len64 s) by (unfold len64; rewrite out_of_length; reflexivity).
+      assert (Hpc : poly_core _ ([] ++ out_of [] s)).
+      { apply (absorb_aligned (set_rct ctxB 0) (out_of [] s) []); psimpl; try congruence.
+        - apply mult16_0.
+        - rewrite F1, A3. reflexivity.
+        - rewrite out_of_length; assumption. }
+      rewrite Hl in Hpc. fold rem l16 in Hpc. cbn [app] in Hpc.
+      split; [|reflexivity].
+      split; [| split; [| split]].
+      + apply (ks_rel_same ctxB); [psimpl; repeat split|]. rewrite <- (app_nil_l s). rewrite st_after_app. exact Hks2.
+      + cbn [ct_of]. rewrite <- (app_nil_l s), ref_out_app. cbn [app].
+        assert (E0 : ref_out 0 [] [] = []) by reflexivity. rewrite E0. cbn [app].
+        eapply poly_core_same; [|exact Hpc].
+        unfold same_poly, ChachaStream.paead_update_ctx. psimpl. rewrite F3, A6. repeat split.
+      + psimpl. unfold ChachaStream.paead_update_ctx. psimpl. rewrite F6. exact A4.
+      + psimpl. unfold ChachaStream.paead_update_ctx. psimpl. rewrite F5. exact A5.
+    - set (ctxH := set_scratch _ _).
+      assert (HksH : ks_rel ctxH (st_after [])).
+      { apply (ks_rel_same ctxA); [|assumption]. subst ctxH. unfold same_ks, ChachaStream.paead_update_ctx. psimpl. repeat split. }
+      pose proof (enc_dec_ks_sim ctxH (st_after []) s HksH) as [Ho Hks2].
+      pose proof (enc_dec_ks_frame ctxH s) as Hfr.
+      assert (Hpc : poly_core _ ([] ++ s)).
+      { apply (absorb_aligned (set_rct ctxA 0) s []); psimpl; try congruence.
+        - apply mult16_0.
+        - rewrite A3. reflexivity. }
+      fold rem l16 in Hpc. cbn [app] in Hpc.
+      destruct (enc_dec_ks key ctxH s) as [ctxB dst]. cbn [fst snd] in *.
+      split; [|exact Ho].
+      destruct Hfr as (F1 & F2 & F3 & F4 & F5 & F6).
+      split; [| split; [| split]].
+      + rewrite <- (app_nil_l s). rewrite st_after_app. exact Hks2.
+      + cbn [ct_of]. eapply poly_core_same; [|exact Hpc].
+        unfold same_poly. rewrite F1, F2, F3, F4, F5, F6.
+        subst ctxH. unfold ChachaStream.paead_update_ctx. psimpl. rewrite A6. repeat split.
+      + rewrite F6. subst ctxH. unfold ChachaStream.paead_update_ctx. psimpl. exact A4.
+      + rewrite F5. subst ctxH. unfold ChachaStream.paead_update_ctx. psimpl. exact A5.
+  Qed.
 End Generic.
